@@ -1548,7 +1548,9 @@ namespace bloch::runtime {
         bool prevStatic = m_inStaticContext;
         bool prevCtor = m_inConstructor;
         bool prevDtor = m_inDestructor;
-        m_currentClassCtx = staticDispatchClass ? staticDispatchClass : method->owner;
+        // The body runs in the context of the class that declares it (this is what 'super' and
+        // unqualified member calls are resolved against), not of the call site's static class.
+        m_currentClassCtx = method->owner ? method->owner : staticDispatchClass;
         m_inStaticContext = method->isStatic;
         m_inConstructor = false;
         m_inDestructor = false;
@@ -2782,6 +2784,13 @@ namespace bloch::runtime {
                             throw BlochError(
                                 ErrorCategory::Runtime, callExpr->line, callExpr->column,
                                 "instance method '" + name + "' requires an object receiver");
+                        }
+                        // an unqualified call is a call on 'this': virtual methods dispatch on
+                        // the receiver's dynamic class
+                        if (method->isVirtual && receiver->cls) {
+                            auto it = receiver->cls->vtable.find(method->signature);
+                            if (it != receiver->cls->vtable.end())
+                                method = it->second;
                         }
                     }
                     return callMethod(method, staticCls, receiver, args);
